@@ -87,9 +87,17 @@ def fmtFiles (w : World) (d : String) : String :=
       | none => names
     "files " ++ ",".intercalate (names.foldl (fun acc x => insertSorted x acc) [])
 
+structure DfSess where
+  dir : String
+  id : Nat
+  hint : Bool
+  io : Nat
+  staged : List ByteArray
+
 structure DState where
   st : St
   iters : List (String × Iter)
+  df : Option DfSess := none
 
 def itGet (l : List (String × Iter)) (id : String) : Option Iter := (l.find? (·.1 = id)).map (·.2)
 def itSet (l : List (String × Iter)) (id : String) (it : Iter) : List (String × Iter) :=
@@ -111,17 +119,98 @@ def fmtDump (s : St) (db : DB) : String :=
   let parts := (fold s db).map (fun (k, r) => s!"{fmtKey k}={fmtRes r}")
   s!"dump n={db.index.length} " ++ ",".intercalate parts
 
+def fmtPos (p : Pos) : String := s!"{p.fid}.{p.block}.{p.off}.{p.size}"
+
+def parseRec (a : List String) : Option Record.Record :=
+  match a with
+  | [t, k, v, b] => some { typ := t.toNat!, key := parseKey k, value := parseVal v, batch := b.toNat! }
+  | _ => none
+
+def fmtRec (r : Record.Record) : String := s!"{r.typ}/{fmtKey r.key}/{fmtVal r.value}/{r.batch}"
+
+def dfBytes (s : St) (d : DfSess) : ByteArray :=
+  match s.world.get d.dir with
+  | none => ByteArray.empty
+  | some dir => if d.hint then dir.hint.getD ByteArray.empty else ((getFile dir.data d.id).map (·.bytes)).getD ByteArray.empty
+
+def dfSet (s : St) (d : DfSess) (b : ByteArray) : St :=
+  let dir := (s.world.get d.dir).getD DirSt.empty
+  let dir := if d.hint then { dir with hint := some b } else { dir with data := setFile dir.data d.id ⟨b, 0⟩ }
+  { s with world := s.world.set d.dir dir }
+
+def dfStep (ds : DState) (op : String) (a : List String) : DState × String :=
+  let s := ds.st
+  match op, a with
+  | "df.open", dir :: id :: io :: rest =>
+    match ds.df with
+    | some _ => (ds, "bad:df-open")
+    | none =>
+      let d : DfSess := { dir := dir, id := id.toNat!, hint := rest = ["hint"], io := io.toNat!, staged := [] }
+      let b := dfBytes s d
+      ({ ds with st := dfSet s d b, df := some d }, s!"ok size={b.size}")
+  | _, _ =>
+    match ds.df with
+    | none => (ds, "bad:no-df")
+    | some d =>
+      let f := dfBytes s d
+      match op, a with
+      | "df.write", r =>
+        match parseRec r with
+        | none => (ds, "?")
+        | some r =>
+          let p := encodeRecord r
+          ({ ds with st := dfSet s d (appendRec C f p) }, "pos " ++ fmtPos (posOf C d.id f.size p))
+      | "df.stage", r =>
+        match parseRec r with
+        | none => (ds, "?")
+        | some r => ({ ds with df := some { d with staged := d.staged ++ [encodeRecord r] } }, "ok")
+      | "df.flush", [] =>
+        let ps := posAll C d.id f d.staged
+        ({ ds with st := dfSet s d (appendAll C f d.staged), df := some { d with staged := [] } },
+          "flushed " ++ ",".intercalate (ps.map fmtPos))
+      | "df.hint", [k, fid, blk, off, sz] =>
+        let p : Pos := { fid := fid.toNat!, block := blk.toNat!, off := off.toNat!, size := sz.toNat! }
+        ({ ds with st := dfSet s d (appendRec C f (encodeHint (parseKey k) p)) }, "ok")
+      | "df.readval", [b, o] =>
+        match readAt C f b.toNat! o.toNat! with
+        | .ok payload =>
+          match decodeValue payload with
+          | some v => (ds, fmtVal v)
+          | none => (ds, "panic:decode")
+        | .eof => (ds, "err:eof")
+        | .err => (ds, "err:crc")
+      | "df.scan", [] =>
+        let sc := scan C d.id f
+        let parts := sc.recs.map (fun (x : ByteArray × Pos) =>
+          match decodeRecord x.1 with
+          | some r => fmtRec r ++ "@" ++ fmtPos x.2
+          | none => "panic:decode")
+        (ds, "scan " ++ " ".intercalate (parts ++ [if sc.ok then "eof" else "err:crc"]))
+      | "df.scanhint", [] =>
+        let sc := scan C d.id f
+        let parts := sc.recs.map (fun (x : ByteArray × Pos) =>
+          match decodeHint x.1 with
+          | some (k, p) => fmtKey k ++ "@" ++ fmtPos p
+          | none => "panic:decode")
+        (ds, "scanhint " ++ " ".intercalate (parts ++ [if sc.ok then "eof" else "err:crc"]))
+      | "df.size", [] => (ds, s!"size logical={f.size} last={f.size / BS}.{f.size % BS}")
+      | "df.phys", [] => if d.io = 1 then (ds, "?") else (ds, s!"phys {f.size}")
+      | "df.sync", [] => (ds, "ok")
+      | "df.close", [] => ({ ds with df := none }, "ok")
+      | "df.sum", [] => (ds, "sum " ++ fmtVal f)
+      | _, _ => (ds, "?")
+
 def parseOrder (a : List String) : List Nat :=
   match a with
   | [o] => if o.startsWith "order=" then ((o.drop 6).toString.splitOn ",").filterMap (·.toNat?) else []
   | _ => []
 
-def step (ds : DState) (line : String) : DState × String :=
+def stepMain (ds : DState) (toks : List String) : DState × String :=
   let s := ds.st
   let lift (r : St × Res) : DState × String := ({ ds with st := r.1 }, fmtRes r.2)
-  match line.splitOn " " |>.filter (· ≠ "") with
+  match toks with
   | "open" :: d :: cfg => lift (openDB s d (parseCfg cfg))
-  | ["close"] => let r := close s; ({ st := r.1, iters := [] }, fmtRes r.2)
+  | ["close"] => let r := close s; ({ ds with st := r.1, iters := [] }, fmtRes r.2)
   | ["scribble", _] => (ds, "ok")
   | ["checkret"] => (ds, "?")
   | ["put", k, v] => lift (put s (parseKey k) (parseVal v))
@@ -239,6 +328,15 @@ def step (ds : DState) (line : String) : DState × String :=
           ({ ds with st := { s with world := s.world.set d { dir with hint := some (h.set! off ((h.get! off) ^^^ x.toNat!.toUInt8)) } } }, "ok")
       else (ds, "?")
   | _ => (ds, "?")
+
+def step (ds : DState) (line : String) : DState × String :=
+  match line.splitOn " " |>.filter (· ≠ "") with
+  | ["geom", o, n] =>
+    -- writeToBuf geometry for a file whose writer state is (0, o) and a payload of n bytes
+    let g := geom o.toNat! n.toNat!
+    (ds, s!"{g.1} {g.2.1} {g.2.2.1} {g.2.2.2 / BS} {g.2.2.2 % BS}")
+  | op :: a => if op.startsWith "df." then dfStep ds op a else stepMain ds (op :: a)
+  | [] => (ds, "?")
 
 partial def loop (h : IO.FS.Stream) (out : IO.FS.Stream) (ds : DState) : IO Unit := do
   let line ← h.getLine
